@@ -1,5 +1,7 @@
 """C39 read-only and closed EKOs never change on disk; every store attempt on them raises."""
 
+import tarfile
+
 from vf.core import CaseResult, exc_bucket
 from vf.refs import s1_store as s1
 
@@ -12,7 +14,10 @@ TECHNIQUE = (
 RULE = (
     "Each case: an archive with 1-3 points (with/without error arrays) written through EKO.create, then a session in one of "
     "four modes - opened with EKO.read (read-only); EKO.read then closed; EKO.edit then closed; the freshly built EKO after "
-    "its close - and 1-12 steps drawn from: store attempts {set a new point, overwrite a point, eko.xgrid = .., "
+    "its close; the EKO is obtained from the tar (temporary extraction), from the tar into a given dest folder, or read-only "
+    "from an already extracted folder (EKO.read(folder, extract=False) / EKO.load(folder); every byte under that folder is "
+    "hashed after each step, close()/exit steps there are the with-exit, which leaves such an EKO open, and the direct "
+    "metadata.update() step is skipped) - and 1-12 steps drawn from: store attempts {set a new point, overwrite a point, eko.xgrid = .., "
     "eko.update(), load_recipes / recipes[..] = None (evolution / matching; a fresh recipe or one already stored in the archive "
     "while it was writable, before or after a sync()/read of it), parts[..] = .. (fresh or already stored), dump()}, reads {get, in, "
     "iter, items(), approx, operator() context, cards, metadata}, memory-only {del, unload, operators.sync, sync of the recipe / part inventories, recipes[stored header]}, a direct "
@@ -30,6 +35,8 @@ ASSUMPTIONS = [
     "Metadata.update() called directly has no access information: whether it raises is not judged, only that the archive stays unchanged",
     "on a closed EKO the outcome of in / iter / approx / cards / metadata / del / unload / sync / close / dump(other) / "
     "deepcopy is not judged (access.py: simple in-memory properties need not raise), only their effect on the archive",
+    "an EKO opened from an extracted folder (extract=False / EKO.load) is never close()d by the check: close() removes the "
+    "working directory, which there is the user's folder itself (EKO.__exit__ deliberately skips it when no archive path is set)",
     "dump(other path) and deepcopy(other path) on a read-only EKO are legitimate (documented) and must leave the archive alone",
 ]
 LEVEL_TEXT = (
@@ -82,6 +89,9 @@ def strategy(tier):
             mode=st.sampled_from(["ro"] + MODES),
             stored=st.sampled_from([True, True, False]),
             presync=st.booleans(),
+            # how the session under test obtains its EKO: from the tar (temporary extraction), from the tar into a given
+            # dest folder, or read-only from an already extracted folder (EKO.read(folder, extract=False) / EKO.load(folder))
+            open=st.sampled_from(["tar", "folder", "dest", "tar", "load", "tar"]),
             steps=st.lists(step, min_size=2, max_size=12),
         )
     )
@@ -119,7 +129,21 @@ def _run(case, res, sb):
     n = len(case["points"])
     mode = case["mode"]
     stored = bool(case.get("stored", False))
+    how = case.get("open", "tar")
+    if how in ("folder", "load"):
+        # an EKO living in a user folder exists only read-only and open: close() removes its working directory - here the
+        # folder itself - which is why EKO.__exit__ does not close such an EKO; the session is ended with __exit__
+        mode = "ro"
+    elif mode == "new-closed":
+        how = "tar"
+    folder, folder_ref = None, None
     content = {}
+
+    def tree(root):
+        out = {}
+        for q in sorted(root.rglob("*")):
+            out[str(q.relative_to(root))] = s1.sha256(q) if q.is_file() else "dir"
+        return out
 
     # ---- set-up: legitimate writes only; anything failing here is not this property's business, but is not hidden either
     try:
@@ -135,10 +159,17 @@ def _run(case, res, sb):
             eko.parts[header("evolution", STORED)] = value(80, False)
             eko.parts_matching[header("matching", STORED)] = value(81, True)
         eko.close()
-        if mode in ("ro", "ro-closed"):
-            eko = EKO.read(path)
+        if how in ("folder", "load"):
+            # the documented on-disk format is a tar of the folder: extract it with plain tarfile
+            folder = sb.dir / "extracted"
+            with tarfile.open(path) as tar:
+                tar.extractall(folder)
+            folder_ref = tree(folder)
+            eko = EKO.read(folder, extract=False) if how == "folder" else EKO.load(folder)
+        elif mode in ("ro", "ro-closed"):
+            eko = EKO.read(path, dest=sb.dir / "dest") if how == "dest" else EKO.read(path)
         elif mode == "edit-closed":
-            eko = EKO.edit(path)
+            eko = EKO.edit(path, dest=sb.dir / "dest") if how == "dest" else EKO.edit(path)
         if mode != "new-closed" and case.get("presync", False):
             # a legitimate read in the session under test: the inventories now know the archived headers
             for inv in (eko.recipes, eko.recipes_matching, eko.parts, eko.parts_matching):
@@ -152,7 +183,7 @@ def _run(case, res, sb):
     ref = s1.sha256(path)
     ref_content = s1.tar_content(path)
     attempted = set()
-    classes = {f"mode={mode}", f"points={n}", f"stored={stored}"}
+    classes = {f"mode={mode}", f"points={n}", f"stored={stored}", f"open={how}"}
     if mode != "new-closed":
         classes.add(f"presync={bool(case.get('presync', False))}")
     nother = [0]
@@ -162,6 +193,15 @@ def _run(case, res, sb):
         return "close" if after in ("close", "exit", "final-close") else after
 
     def archive_ok(after):
+        if folder is not None:
+            now = tree(folder) if folder.exists() else None
+            if now != folder_ref:
+                if now is None:
+                    diff = "folder removed"
+                else:
+                    diff = sorted(k for k in set(now) | set(folder_ref) if now.get(k) != folder_ref.get(k))
+                res.fail(f"{ID}/folder-changed/after={family(after)}", f"the extracted folder of the read-only EKO (opened with {how}) changed after {after}: {diff}")
+                return False
         if not path.exists():
             res.fail(f"{ID}/archive-deleted/readonly={readonly}/after={family(after)}", f"the archive no longer exists after {after} in state {state} (mode {mode})")
             return False
@@ -221,6 +261,18 @@ def _run(case, res, sb):
                     res.fail(f"{ID}/not-refused/{kind}/state={state}", f"{kind} on a {state} EKO (mode {mode}) did not raise")
                 elif not isinstance(out, want):
                     res.fail(exc_bucket(f"{ID}/wrong-exception/{kind}/state={state}", out), f"{kind} on a {state} EKO raised {out!r}, documented: {want.__name__}")
+            elif kind in ("close", "exit") and folder is not None:
+                # leaving the with-block of a folder EKO: documented not to close it; it stays open and read-only
+                classes.add("ro:exit-folder")
+                ok, out = attempt(lambda: eko.__exit__(None, None, None))
+                if not ok:
+                    res.fail(exc_bucket(f"{ID}/ro/exit", out), repr(out))
+                elif not eko.access.open:
+                    state = "closed"
+            elif kind == "meta_direct" and folder is not None:
+                # Metadata.update() writes the working directory without any access information; on a folder EKO that
+                # directory is the user's folder: outside the EKO-level store API this property is about
+                classes.add("ro:meta_direct:skipped-folder")
             elif kind in ("close", "exit"):
                 classes.add(f"{state}:{kind}")
                 ok, out = attempt((lambda: eko.close()) if kind == "close" else (lambda: eko.__exit__(None, None, None)))
@@ -310,7 +362,13 @@ def _run(case, res, sb):
             if res.violations or not archive_ok(label):
                 break
         # ---- end of session
-        if not res.violations and state == "ro":
+        if not res.violations and state == "ro" and folder is not None:
+            ok, out = attempt(lambda: eko.__exit__(None, None, None))
+            if not ok:
+                res.fail(exc_bucket(f"{ID}/ro/final-exit", out), repr(out))
+            else:
+                archive_ok("final-close")
+        elif not res.violations and state == "ro":
             ok, out = attempt(lambda: eko.close())
             if not ok:
                 res.fail(exc_bucket(f"{ID}/ro/final-close", out), repr(out))
